@@ -4,7 +4,7 @@ import json, os, subprocess, sys
 
 ROOT = os.path.dirname(os.path.dirname(os.path.abspath(__file__)))
 
-E1 = "bounded-exhaustive model checking: DFS over the choice tree of (rule, data) inputs, every leaf executed on the real apply() and compared with the reference model R and oracle-free laws"
+E1 = "bounded-exhaustive model checking: DFS over the choice tree of (rule, data) inputs, every leaf executed on the real apply() and compared with the reference model R and oracle-free laws (exhaustive up to the stated lengths, plus position-sensitive size probes at lengths around powers of two up to 257 / 1000)"
 
 CHECKS = {
     # id: (engine, technique, level text, design_ref, level_note)
@@ -27,13 +27,13 @@ CHECKS = {
             "Every value of the corpus x every provenance channel x every truthiness-testing position is executed on the real code and compared with the table of the statement; exhaustive over the stated alphabet, so a change that makes one position or one channel use a different table is found, not sampled.",
             "5/C06", "alphabet = V1 + N + string samples"),
     "C07": ("E1", E1,
-            "All ordered pairs over a 169-value corpus (every JSON type, number spellings, ~90 string-to-number spellings) through literal and var operands and the public helper, against a reference that is itself checked pair-by-pair against verdicts recorded from V8; symmetry and exact negation are checked on the real code independently of the reference.",
+            "All ordered pairs over a 187-value corpus (283 in the thorough tier, each with its own recorded V8 table) (every JSON type, number spellings, ~90 string-to-number spellings) through literal and var operands and the public helper, against a reference that is itself checked pair-by-pair against verdicts recorded from V8; symmetry and exact negation are checked on the real code independently of the reference.",
             "5/C07-C09", "pairs outside the corpus are not covered; V8 table recorded once with node v20 (fixtures/es_truth.json)"),
     "C08": ("E1", E1,
             "Same pair space as C07 for === / !==, plus the same-field-twice forms (containers obtained by evaluation are distinct instances) and the implication === => ==.",
             "5/C07-C09", "as C07"),
     "C09": ("E1", E1,
-            "Same pair space for the four relational operators plus all triples over a 30-value (40 thorough) sub-corpus for the between form; converse and conjunction laws are checked between real executions.",
+            "Same pair space for the four relational operators plus all triples over a 30-value (40 thorough) sub-corpus for the between form and all pairs of arrays of length 1-2 over a 10-element alphabet (separator-sensitive string forms); converse and conjunction laws are checked between real executions.",
             "5/C07-C09", "as C07; code-point order for strings as the property states"),
     "C10": ("E1", E1,
             "All operand tuples of length 0..2 over a ~140-value arithmetic alphabet (magnitudes 5e-324..1.8e308, integers around 2^53/2^63/2^64, ~90 string spellings, containers), length 3 over 32 (60 thorough), 4-5 over 12, for all seven operators; the returned JSON number must equal the independently computed double exactly, integer-vs-float spelling included.",
@@ -57,13 +57,13 @@ CHECKS = {
             "substr: all strings of length 0..4 over {1,2,3,4-byte characters} x start x length over -10..10 plus 64-bit extremes (+ absent length) with the partition law; cat: all operand lists of length 0..3 over 23 values (4 over 8) with the split law at every split point; run with overflow checks on and off.",
             "5/C16", "strings longer than 4 (5 thorough) characters are covered by a few probes only"),
     "C17": ("E2+E3", "explicit-state model checking of the real code: (E2) DFS over call histories whose states are fork() snapshots of the real process, every call compared with its isolated outcome; (E3) stateless preemption-bounded DFS over all interleavings of real threads calling apply() on shared inputs, switched only at feature-guarded hook points (iterative context bounding, bounds 0..2, 3 thorough)",
-            "Purity is a universal claim over histories and schedules. E2 closes all call sequences up to depth 2 (3 thorough) over a 72-call alphabet starting from every reached state - a state being a process snapshot, so any hidden memory whatsoever is carried along; E3 closes all schedules of 10 (11) collision-prone 2-3 thread harnesses within the preemption bound. Every execution is compared with the isolated outcome (value, Err-ness, log lines, input integrity); replayed schedules must reproduce.",
+            "Purity is a universal claim over histories and schedules. E2 closes all call sequences up to depth 2 (3 thorough) over a 72-call alphabet starting from every reached state - a state being a process snapshot, so any hidden memory whatsoever is carried along; E3 closes all schedules of ~180 two- and three-thread harnesses (every pair of 18 operator families incl. identical pairs on a shared rule, hand-picked collision-prone bodies, 100-deep rules) within the preemption bound. Every execution is compared with the isolated outcome (value, Err-ness, log lines, input integrity); replayed schedules must reproduce. Thorough tier adds, as a proviso only, the same thread bodies free-running under miri's data-race detector.",
             "5/C17", "interleavings finer than a hook point are not explored (no unsynchronised shared state exists in safe Rust without unsafe/static; the free-running run is a proviso, not the deciding step); histories longer than 3 calls are not enumerated"),
     "C18": ("E4", "exhaustive exploration of the real binary: full product rule text x data text x delivery form (argument / stdin / stdin with '-' / argument with junk on stdin) and all two-stage pipelines over the valid texts, every process run compared with the library in-process",
             "The wrapper adds argument parsing, stdin handling, printing and the exit status; each of these is decided by running the real binary built from the working tree on every member of the stated product (45 rule texts x 24 data texts x 4 forms + deep nesting + ~3000 chains) and comparing stdout and exit status exactly with what the library does on the same texts.",
             "5/C18", "texts outside the stated lists are not covered; option-like non-JSON texts (-h, --help) are options, not texts; OS-level faults on stdout are outside the quantifier"),
     "C19": ("E4", "exhaustive exploration of the real Python package: full product (rule object x data object x entry point x combination of omitted / supplied optional arguments), every call compared with the library reached through the harness oracle",
-            "The wrapper adds JSON encoding/decoding, defaults for omitted arguments and the exception mapping; all of it is decided by calling the real package (extension built from the working tree) on every member of 62 rules x 26 data x 17 call forms (+ malformed texts and broken serializers) and comparing value (type-strictly) or exception type with the library's own result.",
+            "The wrapper adds JSON encoding/decoding, defaults for omitted arguments and the exception mapping; all of it is decided by calling the real package (extension built from the working tree) on every member of 62 rules x 26 data x 17 call forms (+ malformed texts and broken serializers) and comparing value (type-strictly) or exception type with the library's own result; plus a DFS over sequences of calls (depth 2, 3 thorough) whose states are os.fork() snapshots of the interpreter, each call compared with its isolated outcome (wrapper-level caches, default-argument state).",
             "5/C19", "objects that json.dumps cannot encode are outside the property; CPython's json module is trusted"),
 }
 
